@@ -63,6 +63,11 @@ void vp_text(uint8_t *p, uint64_t n) {
 }
 void vp_conv_unknown(uint8_t t) {      /* lenient agent only */
 	c20_check_slots();
+	/* The format string ends at its first NUL.  A NUL handed out as the conversion character means printf_format has consumed the
+	 * terminator as part of a directive; the lenient agent accepts it, so the parser steps over it and goes on reading behind the end
+	 * of the string (outside the buffer when that NUL is its last byte).  The path is abandoned here: what follows is a walk
+	 * through unconstrained memory, which single-path exploration cannot finish. */
+	if(t == 0) { VP_ASSERT(0, "printf_format consumed the terminating NUL as a conversion character and continues reading behind the end of the format string"); VP_STOP(); }
 	VP_OBSERVE(t);
 }
 void vp_conv(uint8_t t, uint32_t szmod, uint64_t v) {
@@ -213,6 +218,7 @@ void harness_concrete(void) {
 	const char *f = c20_printf_cases[CASE];      /* table generated from props/C20.py (c20_cases.h) */
 	int len = 0; while(f[len]) len++;
 	int decl = c20_scan((const uint8_t *)f, len);
+	int dummy; VP_INPUT(dummy);            /* so that a counterexample of a format without arguments is replayed natively as well */
 	c20_setup(len, decl);
 	for(int i = 0; i <= len; i++) c20_fmt[i] = (uint8_t)f[i];
 	c20_declared = decl; c20_judge = 1;
